@@ -630,6 +630,12 @@ func (s *State) evalIndexRangeExpression(left object.Object, leftIdx, rightIdx a
 			log.Debugf("eval index %s[%s:%s]", left.Inspect(), leftIndex.Inspect(), rightIndex.Inspect())
 		}
 	}
+	if leftIndex.Type() == object.ERROR {
+		return leftIndex
+	}
+	if !nilRight && rightIndex.Type() == object.ERROR {
+		return rightIndex
+	}
 	if !object.IsIntType(leftIndex.Type()) || (!nilRight && !object.IsIntType(rightIndex.Type())) {
 		return s.NewError("range index not integer")
 	}
